@@ -476,6 +476,9 @@ levels:
 	if !expired && e.wants("sections") {
 		multiSections(r, info)
 	}
+	if !expired && e.wants("crosscapture") {
+		crossCapture(r, p, info)
+	}
 	for k, v := range info {
 		r.Count("info:"+k, v)
 	}
@@ -654,6 +657,9 @@ func trunc(s string) string {
 }
 
 func replay(r *core.Run, raw json.RawMessage) bool {
+	if is, bad := ReplayCrossCapture(raw); is {
+		return bad
+	}
 	var sc SecCase
 	if json.Unmarshal(raw, &sc) == nil && sc.Kind == "sections" {
 		sig, msg := judgeSections(sc, map[string]int64{})
@@ -696,4 +702,81 @@ func replay(r *core.Run, raw json.RawMessage) bool {
 		ms = append(ms, cms...)
 	}
 	return len(ms) > 0
+}
+
+// crossCapture: two captures decoded one after the other in one process. Every history of
+// the fragment grid (and of the small single deviation set) is cut at every packet
+// boundary into a first and a second capture file; the first is decoded, then the second,
+// and the second is judged against the reference model of ITS OWN packets: fragments and
+// segments that the first capture left unfinished (reassembly queues, connection tables)
+// must not reach the decode of another capture.
+func crossCapture(r *core.Run, p params, info map[string]int64) {
+	var n, idx int64
+	one := func(specs []ConnSpec, ps []Pkt, kind string) {
+		for k := 1; k < len(ps); k++ {
+			idx++
+			if !r.Mine(idx + 1<<52) {
+				continue
+			}
+			if idx&0xff == 0 && r.Expired() {
+				return
+			}
+			first, second := ps[:k], ps[k:]
+			for _, format := range []int{fmtPcapLE, fmtPcapngLE} {
+				_ = observeGo(buildCapture(first, specs, linkEthernet, format), groupFor(format))
+				ex := reference(second, specs)
+				ob := observeGo(buildCapture(second, specs, linkEthernet, format), groupFor(format))
+				n++
+				if ms := compare(ex, ob, info); len(ms) > 0 {
+					r.Violate("cross-capture:"+ms[0].class+":"+kind, fmt.Sprintf("%s: capture [%s] decoded, then capture [%s] in the same process: the second one, judged on its own packets: %s", fmtNames[format], histString(first), histString(second), ms[0].what),
+						map[string]any{"kind": "cross-capture", "specs": specs, "pkts": ps, "cut": k, "format": fmtNames[format]})
+				}
+			}
+			r.NontrivialHash(uint64(idx) * 2654435761)
+		}
+	}
+	fragGrid(core.Pick(r, 12, p.FragGrid), one)
+	oneConnBases(core.Pick(r, 2, 3), 2, false, func(specs []ConnSpec, ps []Pkt) { one(specs, ps, "none") })
+	if r.Expired() {
+		r.NotExhaustive("deadline during the cross capture enumeration")
+	}
+	r.Eval(n)
+	r.AddTraces(n)
+	r.AddTransitions(n)
+	r.Count("cross_capture_pairs", n)
+	r.Section("cross-capture")
+}
+
+// CrossCapture runs the cross capture family for another check (C18: no state leaks from
+// one decode to the next).
+func CrossCapture(r *core.Run) {
+	info := map[string]int64{}
+	crossCapture(r, tierParams(r), info)
+}
+
+
+// ReplayCrossCapture re-runs one recorded cross capture case; ok=false if raw is not one.
+func ReplayCrossCapture(raw json.RawMessage) (isCase bool, violates bool) {
+	var c struct {
+		Kind   string     `json:"kind"`
+		Specs  []ConnSpec `json:"specs"`
+		Pkts   []Pkt      `json:"pkts"`
+		Cut    int        `json:"cut"`
+		Format string     `json:"format"`
+	}
+	if json.Unmarshal(raw, &c) != nil || c.Kind != "cross-capture" || c.Cut <= 0 || c.Cut >= len(c.Pkts) {
+		return false, false
+	}
+	format := formatByName(c.Format)
+	first, second := c.Pkts[:c.Cut], c.Pkts[c.Cut:]
+	_ = observeGo(buildCapture(first, c.Specs, linkEthernet, format), groupFor(format))
+	ex := reference(second, c.Specs)
+	ob := observeGo(buildCapture(second, c.Specs, linkEthernet, format), groupFor(format))
+	ms := compare(ex, ob, map[string]int64{})
+	b, _ := json.Marshal(ob)
+	fmt.Printf("  first capture:  [%s]\n  second capture: [%s] (%s)\n  fq tree of the second: %s\n", histString(first), histString(second), c.Format, b)
+	for _, m := range ms {
+		fmt.Printf("  MISMATCH %s: %s\n", m.class, m.what)
+	}
+	return true, len(ms) > 0
 }
